@@ -171,7 +171,7 @@ pub fn eval_from_bytes_bitcoin(bytes: &[u8], version_id: u8) -> EvaluatedScript 
         EvaluatedScript::new(address, ScriptPattern::Pay2Taproot)
     } else if script.is_witness_program() {
         EvaluatedScript::new(address, ScriptPattern::WitnessProgram)
-    } else if script.is_multisig() {
+    } else if is_bare_multisig(script) {
         EvaluatedScript::new(address, ScriptPattern::Pay2MultiSig)
     } else {
         EvaluatedScript::new(address, ScriptPattern::NotRecognised)
@@ -196,6 +196,43 @@ fn p2pk_to_string(script: &Script, network: Network) -> Option<String> {
         network,
     );
     Some(address.to_string())
+}
+
+/// Decodes OP_1..OP_16
+#[inline]
+fn decode_pushnum(op: Opcode) -> Option<usize> {
+    match op.to_u8() {
+        code @ 0x51..=0x60 => Some((code - 0x50) as usize),
+        _ => None,
+    }
+}
+
+/// Checks for a bare multisig script: OP_m <key>{n} OP_n OP_CHECKMULTISIG with 1 <= m <= n <= 16.
+/// `Script::is_multisig` counts keys in a u8 and accepts any opcode in place of OP_n.
+fn is_bare_multisig(script: &Script) -> bool {
+    let mut instructions = script.instructions();
+    let required = match instructions.next() {
+        Some(Ok(Instruction::Op(op))) => match decode_pushnum(op) {
+            Some(m) => m,
+            None => return false,
+        },
+        _ => return false,
+    };
+    let mut keys = 0usize;
+    loop {
+        match instructions.next() {
+            Some(Ok(Instruction::PushBytes(_))) => keys += 1,
+            Some(Ok(Instruction::Op(op))) => {
+                if decode_pushnum(op) != Some(keys) || required > keys {
+                    return false;
+                }
+                break;
+            }
+            _ => return false,
+        }
+    }
+    matches!(instructions.next(), Some(Ok(Instruction::Op(op))) if op == opcodes::all::OP_CHECKMULTISIG)
+        && instructions.next().is_none()
 }
 
 /// Checks whether a script is trivially known to have no satisfying input.
